@@ -40,26 +40,26 @@ type Program struct {
 }
 
 type HarnessCfg struct {
-	Func            string   `json:"func"`
-	MaxDecisions    int      `json:"max_decisions"`
-	MaxSteps        int      `json:"max_steps"`
-	MaxDepth        int      `json:"max_depth"`
-	MaxConcretize   int      `json:"max_concretize"`
-	DefaultAllocCap int64    `json:"default_alloc_cap"`
-	HardAllocLimit  int64    `json:"hard_alloc_limit"`
-	MapOrderFork    bool     `json:"map_order_fork"`
-	MaxPaths        int      `json:"max_paths"`
-	Preemptions     int      `json:"preemptions"`
-	Stubs           []string `json:"stubs"`
-	Races           bool     `json:"races"` // happens-before race detection on the repository's own accesses
-	SolverTimeoutMS int      `json:"solver_timeout_ms"`
-	Twin            bool     `json:"twin"` // run with every verif_Assert replaced by false (vacuity twin)
-	Replay          []int    `json:"replay,omitempty"`
-	NoMerge         bool     `json:"no_merge"`
-	YieldOnUnlock   bool     `json:"yield_on_unlock"`
-	Tier            int      `json:"tier"`
-	MakeEnumLimit   int      `json:"make_enum_limit"`
-	StrictSchedBound bool    `json:"strict_sched_bound"`
+	Func             string   `json:"func"`
+	MaxDecisions     int      `json:"max_decisions"`
+	MaxSteps         int      `json:"max_steps"`
+	MaxDepth         int      `json:"max_depth"`
+	MaxConcretize    int      `json:"max_concretize"`
+	DefaultAllocCap  int64    `json:"default_alloc_cap"`
+	HardAllocLimit   int64    `json:"hard_alloc_limit"`
+	MapOrderFork     bool     `json:"map_order_fork"`
+	MaxPaths         int      `json:"max_paths"`
+	Preemptions      int      `json:"preemptions"`
+	Stubs            []string `json:"stubs"`
+	Races            bool     `json:"races"` // happens-before race detection on the repository's own accesses
+	SolverTimeoutMS  int      `json:"solver_timeout_ms"`
+	Twin             bool     `json:"twin"` // run with every verif_Assert replaced by false (vacuity twin)
+	Replay           []int    `json:"replay,omitempty"`
+	NoMerge          bool     `json:"no_merge"`
+	YieldOnUnlock    bool     `json:"yield_on_unlock"`
+	Tier             int      `json:"tier"`
+	MakeEnumLimit    int      `json:"make_enum_limit"`
+	StrictSchedBound bool     `json:"strict_sched_bound"`
 }
 
 func (c *HarnessCfg) defaults() {
